@@ -37,6 +37,16 @@ rc, out = sh("cargo nextest run --workspace --no-fail-fast --offline 2>&1 | tail
 log["suite_with_patch"] = out[-900:]
 fails = re.findall(r"FAIL \[[^\]]*\] (?:\([^)]*\) )?(\S+) (\S+)", out)
 other = sorted({f"{a} {b}" for a, b in fails if tname not in a and "test_golden_pcap_snapshots" not in b})
+# timing-sensitive pool tests can flake while other builds load the machine: re-run each once on its own
+still = []
+for t in other:
+    crate_bin, test = t.split(" ", 1)
+    rc2, o2 = sh(f"cargo nextest run --workspace --offline -E 'test(={test})' 2>&1 | tail -5")
+    if " 1 passed" not in o2 and "1 passed" not in o2:
+        still.append(t)
+    else:
+        log.setdefault("flaky_rerun_passed", []).append(t)
+other = still
 rc, out2 = sh(f"cargo test --offline -p {crate}{feat} --test {tname} 2>&1 | tail -25")
 log["demo_with_patch"] = out2[-900:]
 demo_fails = "test result: FAILED" in out2 or "error: test failed" in out2
